@@ -76,9 +76,9 @@ def run_http_schedule(opa, opb, plan, etags_cache={}):
     w = World(frontend="aiohttp", prefix="/")
     try:
         base = "/user/calendars/r/"
-        assert w.request("MKCALENDAR", base).status == 201
+        assert w.request("MKCALENDAR", base).status in range(200, 300)
         r = w.request("PUT", base + "a.ics", [("Content-Type", "text/calendar")], rd.CONTENT[1]())
-        assert r.status == 201
+        assert r.status in range(200, 300)
         etags = {1: r.header("ETag")}
         # etags of the other contents: blob ids, computed by a throw-away memory store
         if not etags_cache:
